@@ -353,7 +353,30 @@ func artifacts(inst *graph.Instance) jv {
 		}
 		out = append(out, jarr(jstr(name), jstr("ok"), jint(int64(buf.Len())), digest(buf.Bytes())))
 	}
+	out = append(out, jarr(jstr("$metadata-view"), metadataView(inst)))
 	return jlist(out)
+}
+
+// metadataView: the metadata as the UI reads it — Instance.Schema(): the "notes" subtree and every node's
+// "nodes.<id>" subtree — i.e. NOT through EncodeToAppSchema (the instance has no other metadata getter).
+func metadataView(inst *graph.Instance) jv {
+	view := jstr("Schema() panics")
+	guard(func() error {
+		g := inst.Schema()
+		per := map[string]jv{}
+		for id, n := range g.Nodes {
+			if n.Metadata != nil {
+				per[id] = canonValue(n.Metadata)
+			}
+		}
+		notes := jnull()
+		if g.Notes != nil {
+			notes = canonValue(g.Notes)
+		}
+		view = jarr(notes, jobj(per))
+		return nil
+	})
+	return view
 }
 
 func digest(b []byte) jv {
